@@ -30,14 +30,19 @@ def afterStep : List Char → List Char
   | [] => []
   | c :: rest => if ('a' ≤ c && c ≤ 'g') || ('A' ≤ c && c ≤ 'G') then rest else afterStep rest
 
-/-- first `#` or `b` AFTER the step letter as an alteration (`re.search("[#b]", key[m.end():])`, ALT_TO_INT).
-    (Fix C16-3: the search used to run over the whole key name, so that the step letter of "b" — B minor — was
-    taken for a flat.) -/
-def keyAlter (lk : String) : Int :=
-  match (afterStep lk.toList).find? fun c => c = '#' || c = 'b' with
-  | some '#' => 1
-  | some _ => -1
-  | none => 0
+/-- the accidental characters right after the step letter (`re.match(r"[#b-]*", name[step.end():])`) -/
+def accChars : List Char → List Char
+  | [] => []
+  | c :: rest => if c = '#' || c = 'b' || c = '-' then c :: accChars rest else []
+
+/-- `_key_step_alter(name)[1]`: the alteration of a key or chord-root name — every accidental character AFTER the
+    step letter, a flat written "b" (key names) or "-" (as INT_TO_ALT writes it), looked up in ALT_TO_INT; `none` =
+    KeyError (a mixture such as "#b").
+    (Fix C16-3: the search used to run over the whole name, so that the step letter of "b" — B minor — was taken for
+    a flat.  Fix C16-4: only "#" and "b" were looked for, so that "B-", which is how `process_local_key` and
+    `find_root_note` themselves spell B flat, was read as B natural.) -/
+def keyAlter (lk : String) : Option Int :=
+  lookup (String.ofList ((accChars (afterStep lk.toList)).map fun c => if c = 'b' then '-' else c)) ALT_TO_INT
 
 def romanInterval (minor : Bool) (degree : String) : Option (String × Nat) :=
   lookup degree (if minor then ROMAN_MIN else ROMAN_MAJ)
@@ -45,8 +50,9 @@ def romanInterval (minor : Bool) (degree : String) : Option (String × Nat) :=
 /-- the tonic of the applied key (after the secondary degree) -/
 def appliedTonic (localKey secondary : String) : Option (String × Int) := do
   let st ← keyStep localKey
+  let ka ← keyAlter localKey
   let (q, n) ← romanInterval (pyIsLower localKey) secondary
-  transposeNoteNoOctave (String.singleton st) (keyAlter localKey) q n
+  transposeNoteNoOctave (String.singleton st) ka q n
 
 /-- the root: step and alteration -/
 def romanRoot (localKey primary secondary : String) : Option (String × Int) := do
